@@ -274,7 +274,7 @@ package part
 // cloneNode: the result is owned by the transaction; if a copy had to be made, the original's
 // watch channel is recorded for closing and the copy gets a fresh channel (or none).
 //@ func (*Txn).cloneNode
-//@   property C01 C11 C12 C06
+//@   property C01 C11 C12 C06 C17
 //@   maypanic
 //@   requires txn != nil && n != nil && 1 <= kindOf(n.flags) && kindOf(n.flags) <= 5 && txn.watches != nil
 //@   atcall (*header).setTxnID@* requires @stamp-only-with-safe-watch $0.watch == nil || fresh($0.watch) || has(txn.watches, $0.watch)
@@ -344,7 +344,7 @@ package part
 //@   ensures @content result.value == value && result.keyLen == len(key) % 65536 && result.prefixLen == len(prefix) % 65536 && (len(prefix) > 0 ==> result.prefixP == addr(prefix[0])) && (len(key) > 0 ==> result.keyP == addr(key[0]))
 //@   ensures @frame onlyFresh()
 //@ func (*Txn).removeChild
-//@   property C12 C06 C01
+//@   property C12 C06 C01 C11 C17
 //@   flag nosafety
 //@   flag assumepre=tree-representation-invariant
 //@   atstore node4 requires @store-owned $p.txnID == txn.txnID || fresh($p)
@@ -364,7 +364,7 @@ package part
 //@   atcall (*header).setSize@* requires @mutate-owned fresh($0) || (kindOf($0.flags) != 1 && txnIDOf($0) == txn.txnID)
 //@   atcall (*header).setKind@* requires @mutate-owned fresh($0) || (kindOf($0.flags) != 1 && txnIDOf($0) == txn.txnID)
 //@ func (*Txn).delete
-//@   property C12 C06 C01
+//@   property C12 C06 C01 C11 C17
 //@   flag nosafety
 //@   flag assumepre=tree-representation-invariant
 //@   atstore node4 requires @store-owned $p.txnID == txn.txnID || fresh($p)
@@ -386,7 +386,7 @@ package part
 //@   ensureslocal @deleted-leaf-watch-recorded hadOld ==> leaf != nil && (leaf.watch == nil || has(txn.watches, leaf.watch))
 //@   loop 2 invariant @leaf-watch-stays-recorded leaf != nil && (leaf.watch == nil || has(txn.watches, leaf.watch))
 //@ func (*Txn).modify
-//@   property C12 C06 C01
+//@   property C12 C06 C01 C11 C17
 //@   flag nosafety
 //@   flag dyncall.mod=pure
 //@   flag assumepre=tree-representation-invariant
@@ -407,3 +407,18 @@ package part
 //@   aftercall (*header).getLeaf@1 assume result == nil || kindOf(result.flags) == 1
 //@   atcall (*header).promote@1 requires @promoted-node-watch-recorded $0.watch == nil || has(txn.watches, $0.watch)
 //@   loop 1 invariant @walk-owned isBox(thisp) || (isElemOf(node4, thisp) && elemOwner(node4, thisp).txnID == txn.txnID) || (isElemOf(node16, thisp) && elemOwner(node16, thisp).txnID == txn.txnID) || (isElemOf(node48, thisp) && elemOwner(node48, thisp).txnID == txn.txnID) || (isElemOf(node256, thisp) && elemOwner(node256, thisp).txnID == txn.txnID)
+
+// ---------------------------------------------------------------------------
+// The Ops interface as seen by the index layer (C06): Get and Prefix return THE watch channel
+// that covers the key resp. the prefix (abstract functions of the tree value and the key's
+// identity); callers must hand on that channel, not a narrower one.
+//@ spec keyId(k []byte) mathint
+//@ spec getWatchOf(t any, k mathint) ptr
+//@ spec prefixWatchOf(t any, k mathint) ptr
+//@ func Ops.Get returns (v, watch, ok)
+//@   trusted
+//@   pure
+//@   ensures watch == getWatchOf(recv, keyId(key))
+//@ func Ops.Prefix returns (it, watch)
+//@   trusted
+//@   ensures watch == prefixWatchOf(recv, keyId(key)) && onlyFresh()
